@@ -11,6 +11,8 @@ from vcheck.core import Task, Violation
 ID = 'C05'
 LEVEL = 'exploration'
 BUDGET = {'quick': 60, 'thorough': 600}
+# deterministic sub-checks repeated in a `python -O` child (core.optimized_child)
+OPT_SUBS = ('sweep#16',)
 KI = 1024
 MI = 1024 * 1024
 BOUND = {'vmdk': 3 * MI // 2}
